@@ -752,8 +752,8 @@ def prog_generic_ptr(rng):
     L.append("\tset(&local, r*2 + 1)")
     L.append("\tr += get(&local)")
     L.append("\tother := k * 3")
-    L.append("\tf := func(d int) int { q := &other; *q += d; return *q }")
-    L.append("\tr = r*10 + f(1) + get(&other)")
+    L.append("\tset(&other, get(&other) + r)")
+    L.append("\tr = r*10 + get(&other)")
     L.append("\tvar zero T")
     L.append("\t_ = zero")
     for i in range(nb):
